@@ -50,6 +50,9 @@ type world struct {
 	nefBytes  []byte                       // NEF of U
 	mfNew     []byte                       // manifest of a not yet deployed U instance "UD"
 	mfUA      []byte                       // manifest of UA (for update)
+	nefD      []byte                       // NEF of a tiny contract with a _deploy method
+	mfNewD    []byte                       // its manifest under a new name
+	mfUAD     []byte                       // its manifest under UA's name (UA updating itself to it)
 	menus     map[smartcontract.ParamType][]argv
 }
 
@@ -313,6 +316,31 @@ func newWorld() (*world, error) {
 	}
 	if w.mfUA, err = json.Marshal(cw.UA.Manifest); err != nil {
 		return fail("UA manifest", err)
+	}
+	// D: a contract whose deployment/update makes the ledger call its _deploy
+	dScript := []byte{byte(opcode.DROP), byte(opcode.DROP), byte(opcode.RET), byte(opcode.PUSH1), byte(opcode.RET)}
+	dn, err := nef.NewFile(dScript)
+	if err != nil {
+		return fail("D nef", err)
+	}
+	if w.nefD, err = dn.Bytes(); err != nil {
+		return fail("D nef", err)
+	}
+	for i, name := range []string{"D", "UA"} {
+		m := manifest.DefaultManifest(name)
+		m.ABI.Methods = []manifest.Method{
+			{Name: "_deploy", Offset: 0, ReturnType: smartcontract.VoidType, Parameters: []manifest.Parameter{manifest.NewParameter("data", smartcontract.AnyType), manifest.NewParameter("isUpdate", smartcontract.BoolType)}},
+			{Name: "x", Offset: 3, ReturnType: smartcontract.IntegerType, Parameters: []manifest.Parameter{}},
+		}
+		b, err := json.Marshal(m)
+		if err != nil {
+			return fail("D manifest", err)
+		}
+		if i == 0 {
+			w.mfNewD = b
+		} else {
+			w.mfUAD = b
+		}
 	}
 	return w, nil
 }
